@@ -25,12 +25,12 @@ LEVEL_NOTE = (
 DBS = {"RuleDB": RuleDB, "RuleDBForgetStrategy": RuleDBForgetStrategy, "RuleDBForest": RuleDBForest}
 
 
-def word_spec(avoid, alphabet, db="RuleDB", seed=0):
+def word_spec(avoid, alphabet, db="RuleDB", seed=0, prefix=""):
     pack = StrategyPack(
         initial_strats=[RemoveFrontOfPrefix()], inferral_strats=[], expansion_strats=[[ExpansionStrategy()]],
         ver_strats=[AtomStrategy()], name="words",
     )
-    start = AvoidingWithPrefix("", avoid, alphabet)
+    start = AvoidingWithPrefix(prefix, avoid, alphabet)
     s = CombinatorialSpecificationSearcher(start, pack, ruledb=DBS[db]())
     specrun.quiet()
     st = random.getstate()
@@ -43,8 +43,8 @@ def word_spec(avoid, alphabet, db="RuleDB", seed=0):
     return spec
 
 
-def build_spec(pt, al, db, sd, reloaded):
-    sp = word_spec(pt, al, db, sd)
+def build_spec(pt, al, db, sd, reloaded, prefix=""):
+    sp = word_spec(pt, al, db, sd, prefix)
     if reloaded:
         sp = CombinatorialSpecification.from_dict(json.loads(json.dumps(sp.to_jsonable())))
     return sp
@@ -300,6 +300,23 @@ def worker(args):
                     raise
                 except Exception as exc:  # noqa: BLE001
                     out["problems"].append(("search-raises", {"avoid": pt, "alphabet": al}, specrun.exc_info(exc)))
+            pr = random.Random(seed * 2003 + len(specs))  # its own stream
+            for _ in range(pr.choice([0, 1, 2])):
+                # start classes with a non-empty prefix: the same shape of specification with atoms of other sizes
+                pt, al = pr.choice(group)
+                pre = "".join(pr.choice(al) for _ in range(pr.choice([1, 1, 2])))
+                db, sd = pr.choice(list(DBS)), pr.randrange(1000)
+                if AvoidingWithPrefix(pre, pt, al).is_empty():
+                    continue  # the specification of an empty class is one rule of the empty strategy: not a specification whose verified classes are atoms
+                try:
+                    sp = build_spec(pt, al, db, sd, False, pre)
+                    specs.append(({"avoid": list(pt), "alphabet": list(al), "db": db, "seed": sd, "reloaded": False, "prefix": pre}, sp))
+                except SpecificationNotFound:
+                    pass
+                except speccheck.Timeout:
+                    raise
+                except Exception:  # noqa: BLE001  (an empty start class makes the searcher raise: not this property's matter)
+                    pass
             if rnd.random() < 0.4:
                 specs += upword_specs(rnd)
             xr = random.Random(seed * 1009 + out["specs"])  # its own stream: the groups above keep theirs
@@ -388,7 +405,7 @@ def replay(case):
             return specrun.search(x["cfg"])[1]
         if "dot" in x:
             return dot_spec(x["dot"], x["alphabet"], x["db"], x["seed"])
-        return build_spec(x["avoid"], x["alphabet"], x["db"], x["seed"], x["reloaded"])
+        return build_spec(x["avoid"], x["alphabet"], x["db"], x["seed"], x["reloaded"], x.get("prefix", ""))
 
     s1, s2 = rebuild(a), rebuild(b)
     specrun.quiet()
